@@ -10,7 +10,7 @@ META = {
     "technique": "Coq proof over ALL schedules of a micro-step model (non-atomic lazy cells, instance table, threads) + source scan of every global/shared-state construct compared with the modelled inventory + stress runs: cold processes with 2..64 barrier-released threads whose first calls go into every algorithm, and random single-thread interleavings of instances, both compared with one-at-a-time results",
     "level_text": "PARTIAL. Machine-checked (Props/C18.v, 8 theorems, all closed, no bound on threads or steps): lazy dispatch cells accessed by separate read / compute / store micro-steps (weaker than std::sync::Once) only ever hold None or init(c) and every caller uses init(c) under every schedule (C18_once_cell_any_schedule); each thread's outputs and instance state equal the sequential one-at-a-time run of the operations it executed (C18_concurrent_equals_sequential, C18_concurrent_complete); instances not owned are never written (C18_no_foreign_writes); single-thread interleavings give each instance its own sequential results (C18_interleaving_independent); a thread given 4 micro-steps per operation finishes whatever the others do, so under every fair schedule all outputs are the sequential ones (C18_progress, C18_fair_schedule_sequential); a concrete 3-thread schedule with a racy double initialisation (C18_example_three_threads). OBSERVED, not proved: memory-model effects (torn pointer reads, the real Once), and that the code has no shared mutable state beyond the modelled cells. C18_no_foreign_writes and C18_interleaving_independent hold by construction of the model (an operation is given only its own table entry). Instantiated with a real algorithm (Proofs/FollowupsGroestl.v): C18_groestl256_concurrent_first_use / C18_groestl512_concurrent_first_use (+ C18_groestl256_concurrent_first_use_fair, C18_groestl_no_sse2_all_calls_panic, C18_groestl256_hasher_concurrent_first_use): for every schedule of threads whose first Groestl calls race on the lazily initialised implementation choice, each thread's digest is Spec.Groestl.groestl256/512 of its own message (composed with C07); assumes is_x86_feature_detected! is consistent within a process.",
     "level_note": "Proved: the scheduling logic, for every schedule. The model's premises are tied to the code by (a) a scan, regenerated on every run, of every .rs file of the repository (own lexer; build scripts included; tests/ benches/ examples/ and cfg(test) modules only when a library file pulls them in; #[path] / include! targets followed, computed ones such as OUT_DIR reported) for static / static mut / thread_local / UnsafeCell / Cell / RefCell / atomics / lazy_static! / Once* / Lazy* / Mutex / RwLock / unsafe impl Sync outside items whose cfg is test or cryptocorrosion_verif (alone, inside all(..), or any(..) of only those), compared with the modelled inventory recognised by shape (in hashes/groestl: a lazy_static! cell holding one function pointer whose initialiser only selects a path by is_x86_feature_detected!, six expansions; std's feature-detection cache behind is_x86_feature_detected! has the same read/compute/store shape and lives outside the repository) — any other mutable global is reported with file:line; (b) stress runs whose counts (processes, thread counts, start modes, first algorithms, interleaving rounds) are in coverage.configurations. Only observed: absence of wrong results in those runs.",
-    "rule": "evaluation = one (thread, algorithm) result of a cold multi-threaded process compared with the sequential reference computed in a separate single-threaded process, or one interleaving round (2..6 instances, random schedule) compared with one-at-a-time; distinct = distinct (thread count, start mode, first algorithm) configurations + distinct (instance kinds, schedule) rounds; all are non-trivial (every input is a non-empty random message)",
+    "rule": "evaluation = one (thread, algorithm) result of a cold multi-threaded process compared with the sequential reference computed in a separate single-threaded process (two kinds of cold process: every thread walks through all algorithms from a start that depends on the mode, then the hammer phase; or - same-start - all k threads, k = 2 / 8 / 64, released together by a barrier and a spinning rendezvous, make their first two calls into ONE algorithm and nothing else, the algorithm rotating over all of them across the processes), or one interleaving round (2..6 instances, random schedule) compared with one-at-a-time; distinct = distinct (thread count, start mode (3 = same-start), first algorithm) configurations + distinct (instance kinds, schedule) rounds; all are non-trivial (every input is a non-empty random message)",
     "assumptions": ["x86-64 Linux host; schedules actually exercised are chosen by the OS scheduler", "16 hardware threads: 32/64-thread processes are oversubscribed"],
     "trusted_extra": ["the source scan of checks/c18.py (its Rust lexer, its item extents for cfg(test)/cfg(cryptocorrosion_verif) skipping, its list of constructs, its shape test for the modelled lazy cells); code produced by macros of external crates or by build scripts is not seen"],
 }
@@ -803,14 +803,18 @@ def run(ctx):
     procs = 200 if ctx.quick else 1000
     rounds = 600 if ctx.quick else 6000
     hammer = 2000 if ctx.quick else 8000      # short-operation iterations per cold process (divided among its threads)
+    # cold processes whose k threads (k = 2, 8, 64 in turn) ALL start on the same algorithm and run nothing else; the algorithm
+    # rotates over the 45 kinds: 135 processes = every (k, algorithm) pair once
+    samestart = 675 if ctx.quick else 2700
     for profile in ("debug", "release"):
         binary, log = vlib.cargo_build(profile=profile, bin_name="h_conc")
         if binary is None:
             raise vlib.CheckError("harness build failed (h_conc %s): %s" % (profile, log[-2000:]))
-        s = vlib.correspondence(ctx, binary, "conc", ["--procs", procs, "--rounds", rounds, "--hammer", hammer], "host/%s" % profile)
-        ctx.log("host/%s: %d cold processes %s, %d thread results + %d hammer results, %d sequence results, %d interleaving rounds (%d ops: %s), %d failing" % (
+        s = vlib.correspondence(ctx, binary, "conc", ["--procs", procs, "--rounds", rounds, "--hammer", hammer, "--samestart", samestart], "host/%s" % profile)
+        ctx.log("host/%s: %d cold processes %s, %d thread results + %d hammer results, %d same-start processes %s (%d results), %d sequence results, %d interleaving rounds (%d ops: %s), %d failing" % (
             profile, s.get("cold_processes", 0), s.get("thread_counts"), s.get("thread_results_compared", 0),
-            s.get("hammer_results_compared", 0), s.get("sequence_results_compared", 0),
+            s.get("hammer_results_compared", 0), s.get("same_start_processes", 0), s.get("same_start_thread_counts"),
+            s.get("same_start_results_compared", 0), s.get("sequence_results_compared", 0),
             s.get("interleaving_rounds", 0), s.get("interleaving_ops", 0), s.get("interleaving_op_mix"), s.get("failing_results", 0)))
         vlib.decide_relative(ctx, s, theorem="C18_concurrent_complete / C18_interleaving_independent")
     if not ctx.quick:
@@ -819,7 +823,7 @@ def run(ctx):
             ctx.assumptions.append("hook H1 not present at build time: back ends not forced, host dispatch only")
         else:
             for level in (1, 2, 3, 4, 5):
-                s = vlib.correspondence(ctx, binary, "conc", ["--procs", 80, "--rounds", 500, "--hammer", hammer, "--level", level],
+                s = vlib.correspondence(ctx, binary, "conc", ["--procs", 80, "--rounds", 500, "--hammer", hammer, "--samestart", 270, "--level", level],
                                         "H1-level%d/release" % level)
                 ctx.log("H1 level %d/release: %d cold processes, %d thread results, %d failing" % (
                     level, s.get("cold_processes", 0), s.get("thread_results_compared", 0), s.get("failing_results", 0)))
